@@ -1,6 +1,7 @@
 """Composition machine (shared by C02, C04, C06): case generation, both interpreters, comparison,
 attribution of each disagreement to the property whose observable it is, shrinking."""
 import itertools
+import re
 import random
 
 from .common import Run, ddmin
@@ -36,8 +37,9 @@ def all_table_keys():
 class Gen:
     """sequence generator tracking a bound on |count| per register so that no i32 overflow occurs"""
 
-    def __init__(self, rng, nregs=3, keys=None):
+    def __init__(self, rng, nregs=3, keys=None, variant=False):
         self.keys = keys or KEYS
+        self.variant = variant    # keys of caller-made variant elements (`Sym:iso~3`) take part: key-typed operations only
         self.rng = rng
         self.n = nregs
         self.bound = [0] * nregs
@@ -64,7 +66,7 @@ class Gen:
         v = g.randint(-50, 50)
         if g.random() < 0.15:
             v = g.choice([0, 1, -1])
-        if g.random() < 0.06 and v != 0 and self.bound[r] + 2 * abs(v) <= LIMIT:
+        if g.random() < 0.06 and v != 0 and self.bound[r] + 2 * abs(v) <= LIMIT and not self.variant:
             # a count that goes up and comes back to exactly where it was (an explicit zero entry if it was absent)
             a, b2 = g.sample(["inc", "iadd", "sadd"], 2) if k.endswith(":0") and k.split(":")[0].isalpha() else g.sample(["inc", "iadd"], 2)
             for name, val in ((a, v), (b2, -v)):
@@ -77,6 +79,9 @@ class Gen:
              "eq", "new"],
             [6, 8, 4, 4, 3, 3, 4, 2, 12, 3, 4, 3, 6, 6, 5, 5, 3, 3, 4, 3, 3, 3, 4, 5, 5, 1])[0]
         b = self.bound
+        if self.variant and kind in ("sset", "sadd", "incs", "gsm"):
+            # which of two same-symbol keys a string *write* reaches is not something the properties say
+            kind = g.choice(["set", "inc", "iset", "iadd"])
         if kind in ("set", "iset"):
             return self.emit(f"{kind} {r} {k} {v}", r, max(b[r], abs(v)))
         if kind in ("inc", "iadd"):
@@ -133,6 +138,9 @@ class Gen:
             npairs = g.randrange(0, 6)
             ps = [(g.choice(KEYS[:6] if g.random() < 0.6 else KEYS), g.randint(-50, 50)) for _ in range(npairs)]
             variant = g.choice(["vecES", "iterES", "vecStr", "iterStr"])
+            if self.variant:
+                ps = [(g.choice(self.keys), v) for _, v in ps]
+                variant = g.choice(["vecES", "iterES"])
             f = g.choice(FORMS) if allow_conv else self.form[r]
             self.form[r] = f
             txt = ",".join(f"{k}={v}" for k, v in ps) or "-"
@@ -141,6 +149,10 @@ class Gen:
             return self.emit(f"{kind} {r} {k}")
         if kind in ("gets", "sidx"):
             s = g.choice(GOOD_STR + BAD_STR)
+            if self.variant:
+                # a string read with a stock and a variant plain key of one symbol both present has no defined answer (the
+                # map representation returns whichever its iteration meets first): none in random histories
+                return self.emit(f"get {r} {k}")
             return self.emit(f"{kind} {r} {sarg(s)}")
         if kind == "eq":
             d = g.randrange(self.n)
@@ -148,7 +160,7 @@ class Gen:
                 # make d a near-copy of r, then disturb which keys are present / zero
                 self.form[d] = self.form[r]
                 self.emit(f"clone {d} {r}", d, b[r])
-                k2, k3 = g.sample(KEYS, 2)
+                k2, k3 = g.sample(self.keys if self.variant else KEYS, 2)
                 choice = g.randrange(4)
                 if choice == 0:
                     self.emit(f"set {d} {k2} 0", d, b[d])
@@ -317,6 +329,57 @@ def gen_cases(seed, tier):
                 cases.append(dict(kind="lockstep", form=f, ops=render_uniform(g.ops, f), group=f"rnd{i}", nregs=3))
         else:
             cases.append(dict(kind="mixed", ops=g.ops, group=f"rnd{i}", nregs=3))
+    # 4. caller-made elements: keys whose element is a *variant* of a stock element (same symbol and isotopes, another most
+    #    abundant isotope — enriched material).  `Element::eq` holds them apart from the stock element, so `C:0` and `C:0~3`
+    #    are two keys with one symbol text, one isotope number and one hash; every key-typed operation must keep them apart.
+    vkeys = ["C:0", "C:0~3", "C:13", "C:13~3", "H:0", "H:0~3", "O:0", "O:0~3", "O:18", "Cl:0~3", "Cl:0", "Fe:0~3", "N:0"]
+    vcorpus = [
+        "new 0 vec;set 0 C:0 2;inc 0 C:0~3 3;get 0 C:0;get 0 C:0~3;fmass 0;iadd 0 C:0 1;get 0 C:0~3;fmass 0",
+        "new 0 vec;new 1 vec;set 0 C:0~3 4;set 1 C:0 5;add 2 0 1 ref;get 2 C:0;get 2 C:0~3;sub 2 1 0 val;addi 0 1 own;get 0 C:0;fmass 0;eq 0 1",
+        "new 0 vec;fromkv 0 vec iterES C:0=1,C:0~3=2,C:0=4,C:0~3=8;get 0 C:0;get 0 C:0~3;fmass 0",
+        "new 0 vec;new 1 vec;set 0 H:0~3 2;set 1 H:0 2;eq 0 1;eq 1 0;fmass 0;fmass 1;get 0 H:0;get 1 H:0~3;gets 0 72;gets 1 72",
+        "new 0 vec;set 0 O:0~3 1;gets 0 79;sidx 0 79;get 0 O:0;idx 0 O:0;get 0 O:0~3",
+    ]
+    for j, ctext in enumerate(vcorpus):
+        for f in FORMS:
+            cases.append(dict(kind="lockstep", form=f, ops=render_uniform(ctext.split(";"), f), group=f"varc{j}", nregs=3, variant=True))
+    # string reads where they are determined: one plain key per symbol, stock or variant — the answer is its count
+    vsyms = ["C", "H", "O", "N", "Cl", "Fe", "S", "Ca", "Se", "Sn"]
+    for i in range(200 if tier == "thorough" else 40):
+        chosen = rng.sample(vsyms, rng.randint(1, 5))
+        held = {sy: (rng.random() < 0.6, rng.randint(-9, 30)) for sy in chosen}
+        ops = ["new 0 vec"] + [f"{rng.choice(['set', 'inc', 'iadd'])} 0 {sy}:0{'~3' if var else ''} {v}" for sy, (var, v) in held.items()]
+        if rng.random() < 0.5:
+            ops.append("fmass 0")
+        reads = {}
+        for sy in rng.sample(vsyms, len(vsyms)):
+            for kind_ in ("gets", "sidx"):
+                reads[len(ops)] = held.get(sy, (False, 0))[1]
+                ops.append(f"{kind_} 0 {sarg(sy)}")
+        for f in FORMS:
+            cases.append(dict(kind="lockstep", form=f, ops=render_uniform(ops, f), group=f"vtext{i}", nregs=1, variant=True, text_reads=reads))
+    for i in range(800 if tier == "thorough" else 120):
+        g = Gen(rng, 3, keys=vkeys, variant=True)
+        lock = i % 4 != 0
+        g.start(["vec"] * 3 if lock else [rng.choice(FORMS) for _ in range(3)])
+        for reg in range(3):
+            if rng.random() < 0.8:
+                ps = [(rng.choice(vkeys), rng.randint(-50, 50)) for _ in range(rng.randint(1, 6))]
+                g.emit("fromkv %d %s %s %s" % (reg, g.form[reg], rng.choice(["vecES", "iterES"]), ",".join(f"{k}={v}" for k, v in ps)),
+                       reg, sum(abs(v) for _, v in ps))
+        target, tries = rng.randint(8, 30), 0
+        while len(g.ops) < target and tries < 300:
+            tries += 1
+            if rng.random() < 0.3:
+                g.emit(f"fmass {rng.randrange(3)}")
+            g.random_op(allow_conv=not lock, allow_gsm=False, allow_bad_write=False)
+        for r_ in range(3):
+            g.emit(f"fmass {r_}")
+        if lock:
+            for f in FORMS:
+                cases.append(dict(kind="lockstep", form=f, ops=render_uniform(g.ops, f), group=f"var{i}", nregs=3, variant=True))
+        else:
+            cases.append(dict(kind="mixed", ops=g.ops, group=f"var{i}", nregs=3, variant=True))
     return cases
 
 
@@ -335,6 +398,8 @@ def case_line(c, impl=False):
     ops = c["ops"]
     if not impl:
         ops = [o.replace("StrAlias ", "Str ") for o in ops]   # the model has keys, not spellings
+        # a variant element is another symbol in the model: `C:0~3` -> `C^3:0`
+        ops = [re.sub(r"([A-Za-z*]+):(\d+)~3", r"\1^3:\2", o) for o in ops]
     if impl:
         import zlib
         ops = [(o.replace(" ", "@t ", 1) if via_trait(o, i) else o) for i, o in enumerate(ops)]
@@ -343,7 +408,7 @@ def case_line(c, impl=False):
         KEYED = ("set ", "inc ", "iset ", "iadd ", "get ", "idx ", "set@t ", "inc@t ", "get@t ")
 
         def second(o, i):
-            if o.startswith(KEYED) and zlib.crc32(f"2#{o}#{i}".encode()) % 4 == 0:
+            if o.startswith(KEYED) and "~" not in o and zlib.crc32(f"2#{o}#{i}".encode()) % 4 == 0:
                 w = o.split(" ")
                 w[2] = w[2] + "~2"
                 return " ".join(w)
@@ -396,9 +461,14 @@ def compare_case(c, impl_line, model_line):
                 issues.append(("C02", "corr-fmass", idx, f"impl {iread} model {mread}"))
         elif iread != "null" or mread != "null":
             unspecified = w[0] == "gets" and "91" in w[2].split(",")
-            if not unspecified and iread != sread:
+            # with a stock and a variant element of one symbol present, which of them a *string* names is not specified
+            # (and not modelled): such reads are compared across the representations only (lock-step)
+            by_text = c.get("variant") and w[0] in ("gets", "sidx")
+            if not unspecified and not by_text and iread != sread:
                 issues.append(("C06", "read-" + w[0], idx, f"{op}: impl {iread}, spec {sread}"))
-            if iread != mread:
+            if by_text and idx in c.get("text_reads", {}) and iread != str(c["text_reads"][idx]):
+                issues.append(("C06", "read-by-text-" + w[0], idx, f"{op}: impl {iread}, the one plain key of that symbol holds {c['text_reads'][idx]}"))
+            if iread != mread and not by_text:
                 issues.append(("C06", "corr-read-" + w[0], idx, f"{op}: impl {iread}, model {mread}"))
         for r, (ir, mr, sr) in enumerate(zip(iregs, mregs, sregs)):
             # ir: form|cached|mass|calc|len|ents ; mr adds specmass ; sr: len|ents|mass
@@ -520,7 +590,7 @@ def shrink(r, c, prop, clause):
         il = r.impl("comp", [case_line(cc, impl=True)])[0]
         ml = r.model("comp", [case_line(cc)])[0]
         return any(i[0] == prop and i[1] == clause for i in compare_case(cc, il, ml))
-    if c["kind"] == "lockstep" and clause.startswith("lockstep"):
+    if (c["kind"] == "lockstep" and clause.startswith("lockstep")) or clause.startswith("read-by-text"):
         return c["ops"]
     try:
         if not fails(c["ops"]):
